@@ -111,7 +111,9 @@ fn check_bilinear(c: &Bilin) -> CaseResult {
         return pass(false, "zero-scalar-skipped");
     }
     let e = (&a * &b) % n;
-    // Fp12::pow admits every exponent up to N-1, and e = ab mod N never exceeds it
+    if e >= n - 1u32 {
+        return pass(false, "exponent-N-1-skipped"); // Fp12::pow demands e < N-1
+    }
     let r = catch(|| {
         let p = Point::g_mul(&to_limbs(&b));
         let q = TwistPoint::g_mul(&to_limbs(&a));
